@@ -1122,6 +1122,133 @@ impl Control {
     }
 }
 
+/// `par <rounds>`: concurrent setters of DIFFERENT knobs on one PRIVATE `DynamicConfig` (the case's three
+/// configs are not touched, the op has no model state).  Four OS threads share clones of one fresh
+/// config; thread A owns `mode`, B `quality_enabled`, C `stall_deselect`, D `conn_timeout_ms`.  Each
+/// thread loops `rounds` times: pick the next value for ITS knob (it differs from the previous one, so
+/// every set really changes the knob), apply it — rounds 0,1 mod 4 through the public setter, rounds 2,3 mod 4
+/// through the real `dispatch` with a `set_*` request (whose reply must echo the value) — and read it back
+/// at once — `snapshot()` after a setter, a `get_status` through `dispatch` after a dispatched set.  Nobody else writes
+/// that knob, so the property ("a successful set_* is visible in the next status and configuration
+/// snapshot", quantified over concurrent setters and snapshot readers) demands that the value just set is
+/// the one read; with one independent atomic per knob this always holds (a thread reads its own last
+/// store to an atomic only it writes).  A start barrier and no sleeps make the threads overlap.
+/// One-sided and nondeterministic: a pass proves nothing, a failure is a real lost update.
+/// Returns (number of violations, descriptions of the first few).
+fn par_stress(rounds: usize) -> (usize, Vec<String>) {
+    use std::sync::{Arc, Barrier, Mutex};
+    const KNOBS: [&str; 4] = ["mode", "quality_enabled", "stall_deselect", "conn_timeout_ms"];
+    let cfg = DynamicConfig::new();
+    let barrier = Arc::new(Barrier::new(KNOBS.len()));
+    let bad: Arc<Mutex<(usize, Vec<String>)>> = Arc::new(Mutex::new((0, Vec::new())));
+    std::thread::scope(|sc| {
+        for (t, knob) in KNOBS.iter().enumerate() {
+            let cfg = cfg.clone();
+            let barrier = barrier.clone();
+            let bad = bad.clone();
+            sc.spawn(move || {
+                let report = |d: String| {
+                    let mut g = bad.lock().unwrap();
+                    g.0 += 1;
+                    if g.1.len() < 4 {
+                        g.1.push(d);
+                    }
+                };
+                let call = |line: &str| -> Option<Value> {
+                    catch_unwind(AssertUnwindSafe(|| dispatch(&cfg, None, None, line).map(|r| r.to_json())))
+                        .ok()
+                        .flatten()
+                        .and_then(|t| serde_json::from_str::<Value>(&t).ok())
+                };
+                barrier.wait();
+                for k in 0..rounds {
+                    // two rounds through the setters, two through the dispatcher, ...
+                    let via_dispatch = (k / 2) % 2 == 1;
+                    // the value for this round (toggles every round, so both paths set both values),
+                    // `want` below is the canonical text the status / snapshot shows for it
+                    let flag = k % 2 == 0;
+                    let ms_req: u64 = match k % 7 {
+                        0 => 0,
+                        1 => 999,
+                        2 => 60001,
+                        3 => u64::MAX,
+                        _ => 1000 + ((k as u64).wrapping_mul(7919) % 59001),
+                    };
+                    let want: String = match t {
+                        0 => (if flag { "classic" } else { "enhanced" }).to_string(),
+                        1 | 2 => show_bool(flag).to_string(),
+                        _ => clamp_lit(ms_req).to_string(),
+                    };
+                    // --- set
+                    if !via_dispatch {
+                        match t {
+                            0 => cfg.set_mode(if flag { SchedulingMode::Classic } else { SchedulingMode::Enhanced }),
+                            1 => cfg.set_quality_enabled(flag),
+                            2 => cfg.set_stall_deselect(flag),
+                            _ => {
+                                let a = cfg.set_conn_timeout_ms(ms_req);
+                                if a.to_string() != want {
+                                    report(format!("round {k}: set_conn_timeout_ms({ms_req}) returned {a}, clamp is {want}"));
+                                }
+                            }
+                        }
+                    } else {
+                        let (method, params, member) = match t {
+                            0 => ("set_mode", format!(r#"{{"mode":"{want}"}}"#), "mode"),
+                            1 => ("set_quality", format!(r#"{{"enabled":{flag}}}"#), "enabled"),
+                            2 => ("set_stall_deselect", format!(r#"{{"enabled":{flag}}}"#), "enabled"),
+                            _ => ("set_conn_timeout", format!(r#"{{"ms":{ms_req}}}"#), "ms"),
+                        };
+                        let line = format!(r#"{{"jsonrpc":"2.0","id":{k},"method":"{method}","params":{params}}}"#);
+                        let echoed = call(&line).map(|v| match &v["result"][member] {
+                            Value::String(s) => s.clone(),
+                            Value::Bool(b) => show_bool(*b).to_string(),
+                            Value::Number(n) => n.to_string(),
+                            other => format!("?{other}"),
+                        });
+                        if echoed.as_deref() != Some(want.as_str()) {
+                            report(format!("round {k}: {method} {params} over dispatch answered {echoed:?}, expected {want}"));
+                        }
+                    }
+                    // --- read back at once
+                    let (got, how): (String, &str) = if !via_dispatch {
+                        let s = cfg.snapshot();
+                        (
+                            match t {
+                                0 => s.mode.to_string(),
+                                1 => show_bool(s.quality_enabled).to_string(),
+                                2 => show_bool(s.stall_deselect).to_string(),
+                                _ => s.conn_timeout_ms.to_string(),
+                            },
+                            "snapshot()",
+                        )
+                    } else {
+                        let r = call(PROBE).map(|v| v["result"].clone()).unwrap_or(Value::Null);
+                        (
+                            match t {
+                                0 => r["mode"].as_str().unwrap_or("?").to_string(),
+                                1 => r["quality_enabled"].as_bool().map(|b| show_bool(b).to_string()).unwrap_or("?".into()),
+                                2 => r["stall_deselect"].as_bool().map(|b| show_bool(b).to_string()).unwrap_or("?".into()),
+                                _ => r["conn_timeout_ms"].as_u64().map(|x| x.to_string()).unwrap_or("?".into()),
+                            },
+                            "get_status",
+                        )
+                    };
+                    if got != want {
+                        report(format!(
+                            "knob {knob} round {k}: set to {want} ({}), the {how} taken right after by the same thread shows {got} \
+                             although no other thread writes this knob (threads: mode / quality / stall_deselect / timeout setters in parallel)",
+                            if via_dispatch { "dispatch" } else { "setter" }
+                        ));
+                    }
+                }
+            });
+        }
+    });
+    let g = bad.lock().unwrap();
+    (g.0, g.1.clone())
+}
+
 // ------------------------------------------------------------------------------------------
 // Generator
 
@@ -1523,8 +1650,9 @@ impl Component for Control {
          sequence form, batches, missing members, nesting at the recursion limit), malformed JSON (truncation, \
          trailing commas, quotes, BOM, lone surrogates, raw control chars, leading zeros), blank / unicode \
          whitespace lines, random unicode; plus `cli` (from_cli with extreme timeouts), `env` (stats provider absent / default / \
-         updated from 0-4 test links, CriticalWindow passed or not), `cw` (sidecar counters) and `race` (real \
-         threads: concurrent setters and snapshot/get_status readers); one case in three is also replayed \
+         updated from 0-4 test links, CriticalWindow passed or not), `cw` (sidecar counters) `race` (real \
+         threads: concurrent setters and snapshot/get_status readers) and, in about one case in 100, `par` (four real \
+         threads each setting its OWN knob of one private config and reading it back at once); one case in three is also replayed \
          over a real Unix control socket and one in four through the real stdin listener (child process) at \
          the end of the case. Non-trivial: at least one successful set_* that changed the \
          configuration and at least three distinct response classes (ok / an error code / no response)."
@@ -1590,6 +1718,11 @@ impl Component for Control {
                 }
                 _ => ops.push(line_op(&gen_line_bytes(rng))),
             }
+        }
+        // ~1 case in 100: real threads setting DIFFERENT knobs of one private config concurrently
+        if rng.chance(1, 100) {
+            let at = rng.below(ops.len() as u64 + 1) as usize;
+            ops.insert(at, format!("par {}", if tier == Tier::Thorough { 5000 } else { 2000 }));
         }
         ops
     }
@@ -1676,6 +1809,22 @@ impl Component for Control {
                 self.socket_session(true, mon);
                 self.stdin_session(true, mon);
                 "session-ok".into()
+            }
+            ["par", rounds] => {
+                let Ok(rounds) = rounds.parse::<usize>() else { return "bad-op".into() };
+                if rounds == 0 || rounds > 1_000_000 {
+                    return "bad-op".into();
+                }
+                let (n, descs) = par_stress(rounds);
+                mon.count("par");
+                if n > 0 {
+                    mon.fail(
+                        "C18",
+                        "set-not-visible-concurrent",
+                        format!("par {rounds}: {n} violation(s); first: {}", descs.join(" | ")),
+                    );
+                }
+                "ok".into()
             }
             ["race", ms] => {
                 let Some(l) = parse_list::<u64>(ms) else { return "bad-op".into() };
